@@ -42,6 +42,23 @@ theorem C15_step_subset (eq : α → α → Bool) (heq : ∀ x y, eq x y = true 
     (RLA.mk (r.stepSubset eq k).1 (r.stepSubset eq k).2).decode = Py.slice r.decode none none k :=
   Proofs.RLIndex.stepSubset_spec eq heq r h k hk
 
+/-- the clamp of the repaired code does not change what a stepped slice selects: the clamped and the unclamped stride arithmetic decode to the same array -/
+theorem C15_step_clamp (eq : α → α → Bool) (heq : ∀ x y, eq x y = true → x = y) (r : RLA α) (h : r.Valid) (k : Int) (hk : k ≠ 0) :
+    (RLA.mk (r.stepSubset eq k).1 (r.stepSubset eq k).2).decode = (RLA.mk (r.stepSubsetCore eq k).1 (r.stepSubsetCore eq k).2).decode :=
+  Proofs.RLIndex.stepSubset_decode_eq_core eq heq r h k hk
+
+/-- non-vacuity of `C15_step_clamp`: `[7,7,8,8,8,9]` (length 6) with the step 100, clamped to 6 -/
+example :
+    (RLA.mk [0, 2, 5, 6] [7, 8, 9]).validB = true ∧
+    (RLA.mk ((RLA.mk [0, 2, 5, 6] [7, 8, 9]).stepSubset (fun a b => a == b) 100).1
+        ((RLA.mk [0, 2, 5, 6] [7, 8, 9]).stepSubset (fun a b => a == b) 100).2).decode = [7] ∧
+    (RLA.mk ((RLA.mk [0, 2, 5, 6] [7, 8, 9]).stepSubsetCore (fun a b => a == b) 100).1
+        ((RLA.mk [0, 2, 5, 6] [7, 8, 9]).stepSubsetCore (fun a b => a == b) 100).2).decode = [7] ∧
+    (RLA.mk ((RLA.mk [0, 2, 5, 6] [7, 8, 9]).stepSubset (fun a b => a == b) (-100)).1
+        ((RLA.mk [0, 2, 5, 6] [7, 8, 9]).stepSubset (fun a b => a == b) (-100)).2).decode = [9] ∧
+    (RLA.mk [0, 2, 5, 6] [7, 8, 9]).stepSubset (fun a b => a == b) 100 =
+      (RLA.mk [0, 2, 5, 6] [7, 8, 9]).stepSubsetCore (fun a b => a == b) 6 := by decide
+
 /-- HEADLINE: every slice (any start/stop incl. None, negative, beyond the ends; any step ≠ 0)
 is accepted and decodes to CPython's slice of the dense array, as a valid run-length array -/
 theorem C15_slice (eq : α → α → Bool) (heq : ∀ x y, eq x y = true → x = y) (r : RLA α) (h : r.Valid)
@@ -103,5 +120,9 @@ example : (ex.windows [0, 4] [3, 7]).map (fun p => (RLA.mk p.1 p.2).decode) = [[
 -- run-length boolean mask `[T,F,F,T,T,T,F]`
 example : (ex.getitemBool ⟨[0, 1, 3, 6, 7], [true, false, true, false]⟩).map decode = some [5, 7, 7, 5] := by decide
 
-end Props.C15
+-- a step beyond the length (`a[::100] = [5]`, `a[::-100] = [9]`): clamped to the length 7
+example : ex.stepSubset (· == ·) 100 = ([0, 1], [5]) := by decide
+example : ex.stepSubset (· == ·) (-100) = ([0, 1], [9]) := by decide
+example : ex.getSlice (· == ·) none none (some 100) = some ⟨[0, 1], [5]⟩ := by decide
 
+end Props.C15
